@@ -335,6 +335,9 @@ struct GenCtx<'a> {
 	open: Vec<u16>,
 	/// completely defined named types that may be referenced
 	closed: Vec<u16>,
+	/// names that denote a decimal-over-fixed / a duration (they behave specially inside unions)
+	decimal_names: Vec<u16>,
+	duration_names: Vec<u16>,
 }
 
 pub fn gen_schema(rng: &mut Rng, cfg: GenCfg) -> Ty {
@@ -344,6 +347,8 @@ pub fn gen_schema(rng: &mut Rng, cfg: GenCfg) -> Ty {
 		next_name: 0,
 		open: vec![],
 		closed: vec![],
+		decimal_names: vec![],
+		duration_names: vec![],
 	};
 	let depth = ctx.cfg.max_depth;
 	let ty = ctx.gen(depth, false, false);
@@ -460,13 +465,19 @@ impl<'a> GenCtx<'a> {
 				name,
 				size: *self.rng.pick(&[0u32, 1, 2, 4, 7, 12, 16, 33]),
 			},
-			2 if !in_union => Ty::Duration { name },
-			_ => Ty::DecimalFixed {
+			2 if !in_union => {
+				self.duration_names.push(name);
+				Ty::Duration { name }
+			}
+			2 => Ty::Fixed { name, size: 12 },
+			_ => {
+				self.decimal_names.push(name);
+				Ty::DecimalFixed {
 				name,
 				size: *self.rng.pick(&[1u32, 2, 4, 8, 12, 16]),
 				scale: self.rng.below(4) as u32,
 				precision: 28,
-			},
+			}}
 		};
 		self.closed.push(name);
 		ty
@@ -490,24 +501,30 @@ impl<'a> GenCtx<'a> {
 		Ty::Record { name, fields }
 	}
 
-	fn kind_key(&self, ty: &Ty) -> KindKey {
+	/// every "slot" a branch occupies inside a union (two branches may not share a slot)
+	fn kind_keys(&self, ty: &Ty) -> Vec<KindKey> {
 		match ty {
-			Ty::Null => KindKey::Null,
-			Ty::Boolean => KindKey::Boolean,
-			Ty::Int | Ty::Date | Ty::TimeMillis => KindKey::IntFam,
-			Ty::Long | Ty::TimeMicros | Ty::TimestampMillis | Ty::TimestampMicros => KindKey::LongFam,
-			Ty::Float => KindKey::Float,
-			Ty::Double => KindKey::Double,
-			Ty::Bytes | Ty::BigDecimal => KindKey::BytesFam,
-			Ty::DecimalBytes { .. } | Ty::DecimalFixed { .. } => KindKey::Decimal,
-			Ty::String | Ty::Uuid => KindKey::StringFam,
-			Ty::Array(_) => KindKey::Array,
-			Ty::Map(_) => KindKey::Map,
+			Ty::Null => vec![KindKey::Null],
+			Ty::Boolean => vec![KindKey::Boolean],
+			Ty::Int | Ty::Date | Ty::TimeMillis => vec![KindKey::IntFam],
+			Ty::Long | Ty::TimeMicros | Ty::TimestampMillis | Ty::TimestampMicros => vec![KindKey::LongFam],
+			Ty::Float => vec![KindKey::Float],
+			Ty::Double => vec![KindKey::Double],
+			Ty::Bytes | Ty::BigDecimal => vec![KindKey::BytesFam],
+			Ty::DecimalBytes { .. } => vec![KindKey::Decimal, KindKey::BytesFam],
+			Ty::DecimalFixed { name, .. } => vec![KindKey::Decimal, KindKey::Named(*name)],
+			Ty::String | Ty::Uuid => vec![KindKey::StringFam],
+			Ty::Array(_) => vec![KindKey::Array],
+			Ty::Map(_) => vec![KindKey::Map],
 			Ty::Union(_) => unreachable!(),
-			Ty::Record { name, .. } | Ty::Enum { name, .. } | Ty::Fixed { name, .. } | Ty::Duration { name } => {
-				KindKey::Named(*name)
+			Ty::Record { name, .. } | Ty::Enum { name, .. } | Ty::Fixed { name, .. } | Ty::Duration { name } => vec![KindKey::Named(*name)],
+			Ty::Ref(n) => {
+				if self.decimal_names.contains(n) {
+					vec![KindKey::Decimal, KindKey::Named(*n)]
+				} else {
+					vec![KindKey::Named(*n)]
+				}
 			}
-			Ty::Ref(n) => KindKey::Named(*n),
 		}
 	}
 
@@ -522,34 +539,22 @@ impl<'a> GenCtx<'a> {
 			let snap_next = self.next_name;
 			let snap_closed = self.closed.clone();
 			let t = self.gen(depth - 1, true, true);
-			let mut reject = matches!(t, Ty::Union(_) | Ty::Duration { .. });
-			let mut k = KindKey::Null;
-			let mut extra = None;
+			let mut reject = matches!(t, Ty::Union(_) | Ty::Duration { .. }) || matches!(&t, Ty::Ref(n) if self.duration_names.contains(n));
+			let mut ks = vec![];
 			if !reject {
-				k = self.kind_key(&t);
-				// decimal over bytes also occupies the bytes family
-				extra = match t {
-					Ty::DecimalBytes { .. } => Some(KindKey::BytesFam),
-					_ => None,
-				};
-				if keys.contains(&k) || extra.map_or(false, |e| keys.contains(&e)) {
+				ks = self.kind_keys(&t);
+				if ks.iter().any(|k| keys.contains(k)) {
 					reject = true;
-				}
-				if let Ty::BigDecimal | Ty::Bytes = t {
-					if branches.iter().any(|b| matches!(b, Ty::DecimalBytes { .. })) {
-						reject = true;
-					}
 				}
 			}
 			if reject {
 				self.next_name = snap_next;
 				self.closed = snap_closed;
+				self.decimal_names.retain(|n| *n < snap_next);
+				self.duration_names.retain(|n| *n < snap_next);
 				continue;
 			}
-			keys.push(k);
-			if let Some(e) = extra {
-				keys.push(e);
-			}
+			keys.extend(ks);
 			branches.push(t);
 		}
 		let has_null = keys.contains(&KindKey::Null);
